@@ -129,6 +129,12 @@ def tree_lines(ctx, label, sizes=True):
         c[13], c[14] = rng.below(2), 0
         c[16] = 1
         lines.append("%s 0 %s %s" % (gen.cfg_line(c), mat_line(M), "0"))
+    # R10 supports with random signs (alone and inside sums), followed by re-completion of leaves: the R10 step has to
+    # judge the signs without touching the node's matrix
+    for M in gen.r10_sign_scrambles(rng, 400 if q else 8000):
+        c = gen.rand_cfg(rng, algorithm=0, stopflags=False, wantSub=0)
+        c[1], c[16] = 1, 1
+        lines.append("%s 0 %s %s" % (gen.cfg_line(c), mat_line(M), script()))
     # 2-sums of network matrices with the direct graphicness test switched off: the node is not recognized at once, gets a
     # sequence of nested minors, and its 2-separation is found while that sequence is extended (after pivots of the dense
     # working matrix) - a path of the decomposition the default parameters almost never take
